@@ -328,6 +328,11 @@ class _VariationalStrategy(Module, ABC):
         # Delete previously cached items from the training distribution
         if self.training:
             self._clear_cache()
+        # Cached factorizations contain the jitter that was in effect when they were computed
+        jitter_val = self.jitter_val
+        if jitter_val != self.__dict__.get("_cached_jitter_val", jitter_val):
+            self._clear_cache()
+        self._cached_jitter_val = jitter_val
         # (Maybe) initialize variational distribution
         if not self.variational_params_initialized.item():
             prior_dist = self.prior_distribution
